@@ -236,8 +236,11 @@ def invocation_case(case):
             if h not in before:
                 root.removeHandler(h)
     v = []
+    stopped = False              # an input that raises when run alone stops the invocation: later files are not written
     for n, text in enumerate(case["pdbs"]):
         want = observe.run(text, ["-i", arg], name="ref%d" % n)
+        if want["error"]:
+            stopped = True
         fn = "inv%d.pka" % n
         got = None
         if os.path.exists(fn):
@@ -245,6 +248,8 @@ def invocation_case(case):
             os.remove(fn)
         os.remove("inv%d.pdb" % n)
         if want["error"]:
+            continue
+        if stopped and got is None:
             continue
         if got != want["pka_text"] and not v:
             la, lb = (got or "").splitlines(), want["pka_text"].splitlines()
